@@ -7,6 +7,7 @@ import (
 
 // Eval evaluates ast recursively.
 func Eval(node ast.Node, env *object.Env) object.PanObject {
+	verifTick()
 	switch node := node.(type) {
 	// Program
 	case *ast.Program:
